@@ -136,7 +136,7 @@ static void set_enum(AEnum& e, int value) // every field written: the items are 
 }
 
 // typ: 0 moving, 1 unique, 2 unique with cross-validation; m: length of the memo pre-state
-static void build(int m, int typ, bool cont)
+static void build(int m, int typ, bool cont, int clsA)
 {
   vf_ks_base();
   KrigingSystem* ks = KS;
@@ -159,7 +159,7 @@ static void build(int m, int typ, bool cont)
   net_sort(M, NL);
   for (int i = 0; i < m; i++) memo[i] = M[i];
   nb->_nbghMemo        = memo;
-  nb->_iechMemo        = vf_range(-1, 1000);
+  nb->_iechMemo        = vf_range(clsA == 1 ? -1 : 0, 1000); // "same target" / "hasChanged false" need a memorised target
   nb->_flagIsUnchanged = vf_nondet_bool();
   bool xv              = vf_nondet_bool();
   nb->_flagXvalid      = (typ == 2) ? true : (typ == 1 ? false : xv);
@@ -198,8 +198,8 @@ static Outcome one_target(int cls, int n, bool eq, bool prepfail, bool rhsfail)
   KrigingSystem* ks = KS;
   Outcome        o;
   g_n = n;
-  for (int i = 0; i < NL; i++) g_R[i] = vf_nondet_int();
-  int iech  = vf_range(0, 1000);
+  for (int i = 0; i < NL; i++) g_R[i] = vf_range(-1000000, 1000000);
+  int d     = vf_range(1, 1000);
   int msize = (int)g_nb->_nbghMemo.size();
   if (msize == NL && n == NL)
   {
@@ -210,16 +210,20 @@ static Outcome one_target(int cls, int n, bool eq, bool prepfail, bool rhsfail)
       g_R[1] = m0;
     }
     else
-      vf_assume(!((g_R[0] == m0 && g_R[1] == m1) || (g_R[0] == m1 && g_R[1] == m0)));
+    {
+      // any list that is not the memorised set: an arbitrary list, its second rank moved by one when it is the memorised set
+      bool coincide = (g_R[0] == m0 && g_R[1] == m1) || (g_R[0] == m1 && g_R[1] == m0);
+      g_R[1]        = coincide ? g_R[1] + 1 : g_R[1];
+    }
   }
-  if (cls == 0)
+  // target rank: the memorised one (cls 0; the pre-state memorises a target then) or any other rank of [0,1000]
+  int memo = g_nb->_iechMemo;
+  int iech = memo;
+  if (cls != 0)
   {
-    vf_assume(g_nb->_iechMemo >= 0);
-    iech = g_nb->_iechMemo;
+    iech = (memo < 0 ? -1 : memo) + d;
+    if (iech > 1000) iech -= 1001;
   }
-  else
-    vf_assume(iech != g_nb->_iechMemo);
-  if (cls == 2) vf_assume(g_nb->_iechMemo >= 0); // hasChanged() may answer false only when a target is memorised
   g_changed  = (cls == 1);
   g_prepfail = prepfail;
   g_rhsfail  = rhsfail;
@@ -247,7 +251,8 @@ static void pair_case(int typ, int av, int fail)
   for (int cont = 0; cont < 2; cont++)
     for (int bv = 0; bv < 5; bv++)
     {
-      build(AV[av][0], typ, cont == 1);
+      if (cont == 1 && bv != 2) continue; // continuous neighbourhood (preparation at every target): only with B's neighbours unchanged
+      build(AV[av][0], typ, cont == 1, AV[av][1]);
       Outcome A    = one_target(AV[av][1], AV[av][2], AV[av][3] == 1, fail == 1, fail == 2);
       bool    pfB  = vf_nondet_bool(); // B's own failures do not change the length of a vector before the end of B
       bool    rfB  = vf_nondet_bool();
@@ -276,7 +281,7 @@ static void rhs_case(int typ, int av)
   for (int cont = 0; cont < 2; cont++)
     for (int pf = 0; pf < 2; pf++)
     {
-      build(AV[av][0], typ, cont == 1);
+      build(AV[av][0], typ, cont == 1, AV[av][1]);
       Outcome A = one_target(AV[av][1], AV[av][2], AV[av][3] == 1, pf == 1, true);
       if (A.rec.nrhs > 0)
         vf_assert_id(A.rec.nread == 0 || A.rec.readstatus != 0,
